@@ -136,3 +136,50 @@ Proof.
   repeat split; [exact Hst'|exact Hle|exact Hun|].
   exists (l_del (lget (map (rbl c s) g) t)). split; [exact Hdl|exact Hun'].
 Qed.
+
+Lemma gm_ledger_app v : forall a b s g, gm_ledger v s g (a ++ b) = gm_ledger v (exec v s a) (gm_ledger v s g a) b.
+Proof. induction a as [|o r IH]; intros b s g; cbn [app gm_ledger exec]; [reflexivity|apply IH]. Qed.
+
+(* crash points INSIDE a consuming read, ANY mode, after ANY history WITH restarts outside block-id drift *)
+Theorem crash_inside_consuming_read_with_restarts c m be ops o : cfg_ok c ->
+  consuming_read o = true ->
+  outside_known (env_of c m be) init (ops ++ [OReopen]) = true ->
+  N.of_nat (length (offered_all ops)) <= u64_max -> sum_len (offered_all ops) <= u64_max ->
+  let v := env_of c m be in
+  let s := exec v init ops in
+  let s' := fst (step v s o) in
+  let g := gm_ledger v init [] ops in
+  let g' := ledger_step g o (snd (step v s o)) in
+  forall image, image = reopen c s \/ image = reopen c s' ->
+  forall t0 x,
+    stream (get_ts image t0) = l_app (lget g t0) /\
+    exists k, (k <= l_del (lget g' t0))%nat /\
+              unread c (nrm x (get_ts image t0)) = skipn k (l_app (lget g t0)).
+Proof.
+  intros Hc Hcr Hout HB HBb. cbn zeta. pose proof Hc as (_ & Hb0 & _).
+  intros image [->| ->] t0 x.
+  - destruct (crash_between_operations_never_skips_with_restarts c m be ops Hc Hout HB HBb t0 x) as (Hs & _ & _ & k & Hk & Hu).
+    split; [exact Hs|]. exists k. split; [|exact Hu].
+    pose proof (proj2 (ledger_step_read_mono (gm_ledger (env_of c m be) init [] ops) o
+                  (snd (step (env_of c m be) (exec (env_of c m be) init ops) o)) t0 Hcr)). lia.
+  - destruct (outside_known_split _ ops init Hout) as (Hout1 & Hk). cbn [env_of v_cfg] in Hk.
+    pose proof (GM_ledger_reachable c m be Hc ops init [] 0 0 (GM_init c Hb0) Hout1 ltac:(lia) ltac:(lia)) as (_ & Hd & Hb & _).
+    assert (Hoff : offered_all (ops ++ [o]) = offered_all ops).
+    { rewrite offered_all_app. destruct o; try discriminate Hcr; cbn; apply app_nil_r. }
+    assert (Hout2 : outside_known (env_of c m be) init ((ops ++ [o]) ++ [OReopen]) = true).
+    { rewrite outside_known_app. apply andb_true_iff. split.
+      - rewrite outside_known_app, Hout1. destruct o; try discriminate Hcr; reflexivity.
+      - cbn [outside_known]. rewrite exec_app. cbn [exec env_of v_cfg].
+        rewrite id_drift_consuming_read by assumption. rewrite Hk. reflexivity. }
+    pose proof (crash_between_operations_never_skips_with_restarts c m be (ops ++ [o]) Hc Hout2
+                  ltac:(rewrite Hoff; exact HB) ltac:(rewrite Hoff; exact HBb) t0 x) as H2.
+    cbn zeta in H2. rewrite exec_app, gm_ledger_app in H2. cbn [exec gm_ledger] in H2.
+    assert (Hls : (match o with OReopen => map (rbl (v_cfg (env_of c m be)) (exec (env_of c m be) init ops)) (gm_ledger (env_of c m be) init [] ops)
+                   | _ => ledger_step (gm_ledger (env_of c m be) init [] ops) o (snd (step (env_of c m be) (exec (env_of c m be) init ops) o)) end)
+                  = ledger_step (gm_ledger (env_of c m be) init [] ops) o (snd (step (env_of c m be) (exec (env_of c m be) init ops) o)))
+      by (destruct o; try discriminate Hcr; reflexivity).
+    rewrite Hls in H2. clear Hls.
+    destruct H2 as (Hs & _ & _ & k & Hk2 & Hu).
+    rewrite (proj1 (ledger_step_read_mono (gm_ledger (env_of c m be) init [] ops) o _ t0 Hcr)) in Hs, Hu.
+    split; [exact Hs|]. exists k. split; [exact Hk2|exact Hu].
+Qed.
